@@ -2727,6 +2727,20 @@ func c04FiniteValueDescent(info *types.Info, decl *ast.FuncDecl, parents map[ast
 		}
 		return true
 	})
+	// `entries[key]`: an element of the decoded value, whatever the loop ranges over (the sorted keys, usually)
+	for i, a := range call.Args {
+		ix, ok := ast.Unparen(a).(*ast.IndexExpr)
+		if !ok {
+			continue
+		}
+		src, ok := ast.Unparen(ix.X).(*ast.Ident)
+		if !ok {
+			continue
+		}
+		if from, ok := components[info.Uses[src]]; ok && i == position[origin[info.Uses[src]]] {
+			return fmt.Sprintf("the recursion descends into the components of a decoded value (%s, from %s): a literal of the schema, finite whatever its type refers to", exprString(a), from)
+		}
+	}
 	for q := parents[ast.Node(call)]; q != nil; q = parents[q] {
 		rs, ok := q.(*ast.RangeStmt)
 		if !ok {
